@@ -132,17 +132,13 @@ pub struct CanaryReport {
     pub layout_controlled: bool,
     pub layout_skew_acts: bool,
     pub clock_pid_live: bool,
+    pub fork_server_live: bool,
     pub distinct_outputs: usize,
     pub note: String,
 }
 
 pub fn exec_canary(args: &Args) -> CanaryReport {
-    let env = ExecEnv {
-        gram: args.gram.clone(),
-        shim: args.shim.clone(),
-        cap: Duration::from_secs(20),
-        mem_cap: 0,
-    };
+    let env = ExecEnv::new(args.gram.clone(), args.shim.clone(), Duration::from_secs(20), 0);
     let dir = args.work.join(&args.run_id).join("canary");
     let mut report = CanaryReport {
         entropy_live: false,
@@ -150,6 +146,7 @@ pub fn exec_canary(args: &Args) -> CanaryReport {
         layout_controlled: false,
         layout_skew_acts: false,
         clock_pid_live: false,
+        fork_server_live: false,
         distinct_outputs: 0,
         note: String::new(),
     };
@@ -205,6 +202,35 @@ pub fn exec_canary(args: &Args) -> CanaryReport {
     ) {
         report.layout_skew_acts = a.stdout != b.stdout && lb.skewed;
     }
+    // the same canary through the fork server: all seams must act there too
+    let mut fork_ok = true;
+    let mut fork_outputs: Vec<String> = vec![];
+    for (i, key) in keys.iter().enumerate().take(3) {
+        let mut plan = Plan::plain("canary", *key);
+        plan.clock_base = 1_000_000 + i as u64;
+        plan.pid = 500 + i as u32;
+        plan.skew_mmap = (i as u64) * (64 << 20);
+        match sim_exec::launch_forked(&env, &args.canary, &[], &dir, &dir, Colour::NoColor, &plan, &format!("cf{i}")) {
+            Ok((o, log)) => {
+                let text = String::from_utf8_lossy(&o.stdout).into_owned();
+                let orders = text.split(' ').next().unwrap_or("").to_owned();
+                if orders.as_bytes() != outputs[i].as_slice()
+                    || !text.contains(&format!("wall={}", 1_000_000 + i))
+                    || !text.contains(&format!("pid={}", 500 + i))
+                    || log.delivered() < 16
+                {
+                    fork_ok = false;
+                    report.note = format!("fork-server canary mismatch: {text:?}");
+                }
+                fork_outputs.push(text);
+            }
+            Err(e) => {
+                fork_ok = false;
+                report.note = format!("fork server: {e}");
+            }
+        }
+    }
+    report.fork_server_live = fork_ok && fork_outputs.len() == 3;
     // clock and pid seams: the canary must echo exactly what the plan says
     let mut ident = base.clone();
     ident.clock_base = 1_234_567_890;
@@ -259,6 +285,7 @@ struct Totals {
     class: BTreeMap<String, u64>,
     fired: BTreeMap<String, u64>,
     forms: BTreeMap<String, u64>,
+    launchers: BTreeMap<String, u64>,
     colours: BTreeMap<String, u64>,
     inert: u64,
     clock_reads: u64,
@@ -286,6 +313,7 @@ fn accumulate(t: &mut Totals, r: &Value) {
     bump(&mut t.family, r.get("family").and_then(Value::as_str).unwrap_or("?"), 1);
     bump(&mut t.class, r.get("class").and_then(Value::as_str).unwrap_or("?"), 1);
     bump(&mut t.forms, r.get("form").and_then(Value::as_str).unwrap_or("?"), 1);
+    bump(&mut t.launchers, r.get("launcher").and_then(Value::as_str).unwrap_or("?"), 1);
     bump(&mut t.colours, r.get("colour").and_then(Value::as_str).unwrap_or("?"), 1);
     if let Some(m) = r.get("fired").and_then(Value::as_object) {
         for (k, v) in m {
@@ -344,6 +372,7 @@ fn totals_json(t: &Totals) -> Value {
         "class_histogram": t.class,
         "fault_kinds_fired": t.fired,
         "argv_forms": t.forms,
+        "launchers": t.launchers,
         "colour_modes": t.colours,
         "entropy_inert_launches": t.inert,
         "simulated_clock_reads_by_gram": t.clock_reads,
@@ -438,11 +467,11 @@ pub fn run_main(args: &Args) -> i32 {
     let canary = exec_canary(args);
     let (ip_live, ip_repeatable, ip_distinct) = inproc_canary(args);
     println!(
-        "canary: exec entropy live={} repeatable={} distinct={} | layout controlled={} skew acts={} | inproc live={} repeatable={} distinct={}",
-        canary.entropy_live, canary.entropy_repeatable, canary.distinct_outputs,
+        "canary: exec entropy live={} repeatable={} distinct={} fork-server={} | layout controlled={} skew acts={} | inproc live={} repeatable={} distinct={}",
+        canary.entropy_live, canary.entropy_repeatable, canary.distinct_outputs, canary.fork_server_live,
         canary.layout_controlled, canary.layout_skew_acts && canary.clock_pid_live, ip_live, ip_repeatable, ip_distinct
     );
-    if !(canary.entropy_live && canary.entropy_repeatable && canary.clock_pid_live && ip_live && ip_repeatable) {
+    if !(canary.entropy_live && canary.entropy_repeatable && canary.clock_pid_live && canary.fork_server_live && ip_live && ip_repeatable) {
         eprintln!("HARNESS-ERROR: entropy seam is not live or not repeatable ({})", canary.note);
         return finish(2);
     }
@@ -637,6 +666,7 @@ pub fn run_main(args: &Args) -> i32 {
             "layout_seam_controlled": canary.layout_controlled,
             "layout_skew_acts": canary.layout_skew_acts,
             "exec_clock_and_pid_seam_live": canary.clock_pid_live,
+            "fork_server_seams_live": canary.fork_server_live,
             "inproc_entropy_seam_live": ip_live,
             "inproc_entropy_seam_repeatable": ip_repeatable,
             "inproc_canary_distinct_outputs": ip_distinct,
